@@ -32,4 +32,52 @@ LEVELS = {
         'technique': TECH + '; cross-check: exhaustive strings up to length 4 over two 19-letter alphabets',
         'clauses': 'P: all of abbreviation/tokenizer and css_abbreviation/tokenizer except parse_color (trusted).',
     },
+    'C05': {
+        'category': 'other',
+        'text': 'Deductive part: the stylesheet tokenizer functions that recognise numbers, units, colours and the forced dash are under contract and proved (consume_number accepts exactly the documented number shapes, tokens span what they consumed). Complete finite-domain clauses: every colour channel 0..255 through to_hex/to_short_hex, every 1/2/3-digit colour form. The printed property line (units, aliases, !important, separators) is a bounded stand-in against an executable reading of the statement.',
+        'design_ref': 'DESIGN.md section 7 (C05)',
+        'note': 'Trusted: pyvc encoding; parse_color contract (decided by the finite-domain clause for 1-3 digits, bounded for 6); CPython for enumeration.',
+        'technique': TECH + '; finite-domain enumeration of colour channels/forms; bounded stand-in: exhaustive value sequences up to 3 values x syntaxes x options',
+        'clauses': 'P: css tokenizer (shared with C18); F: hex-channel, color-short-forms; B: value-sequences, conventions-options, plus-pairs, random-long, dict-config, color-six-digit.',
+    },
+    'C06': {
+        'category': 'other',
+        'text': 'The main quantifier of the property is finite (every key and every dash-free keyword of the built-in table, every stylesheet syntax, every scope) and is decided by complete enumeration on the real code; user tables are a bounded stand-in (random tables). The best-match search loop is planned under contract (DESIGN.md); until then nothing of C06 is counted as proved by VCs.',
+        'design_ref': 'DESIGN.md section 7 (C06)',
+        'note': 'Trusted: CPython for enumeration. Known finding KF-C06-LG (gradient shortcut lg) is reported, not suppressed for other inputs.',
+        'technique': TECH + '; complete finite-domain enumeration of the built-in snippet table; bounded stand-in for user tables',
+        'clauses': 'F: builtin-keys, builtin-keys-scoped, builtin-keywords, user-override-builtin; B: user-tables, user-case-keys.',
+    },
+    'C09': {
+        'category': 'other',
+        'text': 'Deductive part (shared with C16): html scan reports only well-formed tag ranges that start with <, end with >, carry the name, in increasing order; match()/balanced_outward() return well-formed open/close ranges with close after open that strictly contain the position; get_attributes() shifts every attribute range exactly once and the ranges slice to name and value lengths; all proved for every input. Innermost-ness against the document structure (equivalence with a second parser) is a bounded stand-in: documents generated from random trees with recorded ground truth, every position.',
+        'design_ref': 'DESIGN.md section 7 (C09)',
+        'note': 'Trusted: pyvc encoding; is_special and ScannerOptions contracts (user supplied tables are opaque); callbacks do not mutate scanner-internal objects.',
+        'technique': TECH + '; bounded stand-in: generated documents with ground truth (300 trees quick / 5000 thorough, all positions) + exhaustive tiny forests',
+        'clauses': 'P: html_matcher utils/attributes/scan/match/balanced_outward closures; B: html-tree-html, html-tree-xml, html-tiny-exhaustive.',
+    },
+    'C10': {
+        'category': 'other',
+        'text': 'Deductive part (shared with C16): the CSS structure scan reports only well-formed ranges and delimiters (callback contract proved for all inputs after four repairs), match()/balanced_outward() build well-formed ranges from them including the delimiter == -1 case, inner_range/split_value are proved. Innermost-ness and the balanced lists against ground truth are a bounded stand-in (generated nested stylesheets, every position).',
+        'design_ref': 'DESIGN.md section 7 (C10)',
+        'note': 'Trusted: pyvc encoding. Known findings KF-C10-P (delimiters inside parentheses) and KF-C10-L (leading selector colons) are genuine defects recorded, not repaired.',
+        'technique': TECH + '; bounded stand-in: generated stylesheets with ground truth, all positions + exhaustive tiny documents',
+        'clauses': 'P: css_matcher scan/literal/comment/match/balanced_outward/inner_range/split_value; B: css-tree, css-outward-later-rules, css-declaration-tail, css-tiny-exhaustive, probes.',
+    },
+    'C17': {
+        'category': 'other',
+        'text': 'Deductive part (shared with C16/C09/C10): the scanners, the attribute parser, get_attributes range shifting and split_value that the action helpers are built from are proved. The helpers themselves (get_open_tag, select_item_*, get_css_section) are so far covered by the bounded stand-in against generated documents with recorded attribute / class-token / declaration / value-token ranges.',
+        'design_ref': 'DESIGN.md section 7 (C17)',
+        'note': 'Trusted: pyvc encoding; CPython for the bounded part.',
+        'technique': TECH + '; bounded stand-in: generated HTML/CSS documents with ground truth for every range the helpers report',
+        'clauses': 'P: shared scanner/matcher functions; B: html-actions, css-actions, css-section-unterminated, tiny-exhaustive families.',
+    },
+    'C20': {
+        'category': 'other',
+        'text': 'Complete finite-domain clauses on the real Config: every known syntax x every subset of the five overriding layers x options/snippets/variables, unknown syntax fallback, documented defaults; built-in tables and caller dictionaries deep-compared before/after. Observation through expand() and random layer contents are bounded stand-ins. The merge function merged_data is planned under contract for arbitrary dictionaries (DESIGN.md).',
+        'design_ref': 'DESIGN.md section 7 (C20)',
+        'note': 'Trusted: CPython for enumeration.',
+        'technique': TECH + '; complete enumeration of the layer-subset grid on the real Config; bounded stand-in through expand()',
+        'clauses': 'F: config-layers, unknown-syntax, documented-defaults; B: expand-layers, random-layers.',
+    },
 }
